@@ -19,7 +19,8 @@ PID = 'C11'
 LEAN_MODULES = ['ThermoVerif.Props.C11']
 RULE = ('histories (8–45 ops) over 1–3 real streams (single- and multi-phase; Water/Ethanol/Methanol/Glycerol and a '
         'second package with other order + Propanol): reads and writes through imol/imass/ivol, F_*, get/set_flow, '
-        'get/set_total_flow in kmol/hr, mol/s, kg/hr, lb/hr, g/min, m3/hr, L/min, gal/min (+ non-flow units), '
+        'whole-view assignment (s.mass = o.mass, s.vol = o.vol, ivol.data.copy_like(o.vol), imass[phase] = row / ndarray) '
+        'between streams of different T / P / phase, get/set_total_flow in kmol/hr, mol/s, kg/hr, lb/hr, g/min, m3/hr, L/min, gal/min (+ non-flow units), '
         'interleaved with T, P, phase, phases, link_with (8 flag combinations), unlink, copy_like, _reset_thermo, '
         'mix_from, scale, empty and reactions defined on another property package (reset_chemicals with container); '
         'a grid enumerates link flags × class × follow-up and all unit pairs; non-trivial = a cached view was read, '
@@ -36,7 +37,9 @@ ASSUMPTIONS = [
     'arithmetic: model exact (Rat), implementation binary64; compared with rtol 1e-9 / atol 1e-12',
     'not generated: phase-view streams ms[phase], proxies, linking multi-phase streams with different phase sets or '
     'streams of different packages by flow, _expand_phases on a data object shared with another stream, '
-    'mix_from with fewer than two non-empty inlets or inlets of another package',
+    'mix_from with fewer than two non-empty inlets or inlets of another package, '
+    'view-to-view assignment whose source is a different view object over the receiver\'s own molar rows '
+    '(fixes_proposed/C11-5; enable with ALLOW_ALIASED_ASSIGN once repaired)',
 ]
 TRUSTED = ['Lean 4.33 kernel', 'harness/props/c11.py + Driver/C11.lean', 'pint', 'generator reach (see histogram)']
 
@@ -51,6 +54,10 @@ UNIT_FACTOR = {}
 CONV = {}
 CFG = []          # (model line, expected answer)
 RTOL, ATOL = 1e-9, 1e-12
+# Assigning a view from a *different* view object over the very same molar rows (flow-linked streams) wipes the data in
+# the code as found (fixes_proposed/C11-5).  Not generated until that repair is committed; then set this to True.
+import os
+ALLOW_ALIASED_ASSIGN = os.environ.get('C11_ALIASED', '0') == '1'
 
 
 def setup():
@@ -96,7 +103,7 @@ def setup():
 
 
 def budget(tier):
-    return {'quick': dict(seconds=70, cases=900, shrink_s=20, search_s=5),
+    return {'quick': dict(seconds=70, cases=1100, shrink_s=20, search_s=5),
             'thorough': dict(seconds=480, cases=12000, shrink_s=40, search_s=20)}[tier]
 
 
@@ -443,6 +450,55 @@ def run_ops(ops):
                 emit(f'put {sid} {dim} {ph} {i} {frac(x)} {V}', f'w {vt}')
                 w.last_set = None
                 back = float(indexer(s, dim)[key]) if dim == 'mol' else None
+        elif op == 'assign':
+            # whole-row assignment through a view: <receiver> <dim> <source> <mode view|copylike|arr> <phsel> <src phsel>
+            sid, oid = S(t[1]), S(t[3]); s, o = w.streams[sid], w.streams[oid]
+            dim, mode = t[2], t[4]
+            if s.chemicals is not o.chemicals: return
+            # the source: another stream's view (row) or its dense image
+            if is_multi(o):
+                pho = o.phases[int(t[6]) % len(o.phases)]
+                src = indexer(o, dim)[pho] if dim != 'mol' else o.imol[pho]
+            else:
+                src = indexer(o, dim).data
+            if is_multi(s):
+                ph = s.phases[int(t[5]) % len(s.phases)]; k = list(s.phases).index(ph)
+                tgt, tgt_mol = indexer(s, dim).data.rows[k], s.imol.data.rows[k]
+            else:
+                ph = '-'; k = 0
+                tgt, tgt_mol = indexer(s, dim).data, s.imol.data
+            src_mol = (o.imol.data.rows[list(o.phases).index(pho)] if is_multi(o) else o.imol.data)
+            if src is not tgt and src_mol.dct is tgt_mol.dct and mode != 'arr' and not ALLOW_ALIASED_ASSIGN:
+                return
+            xs = [float(x) for x in np.asarray(src.to_array() if hasattr(src, 'to_array') else src, dtype=float)]
+            value = np.array(xs) if mode == 'arr' else src
+            V = vtok(s, dim == 'vol')
+            pend(sid, dim, f'putrow {sid} {dim} {ph} {mat([xs])} {V}')
+            ix = indexer(s, dim)
+            if is_multi(s):
+                ix[ph] = value
+            elif mode == 'copylike' and mode != 'arr':
+                ix.data.copy_like(value)
+            else:
+                setattr(s, dim, value)            # s.mol / s.mass / s.vol = value
+            vt = '-' if dim == 'mol' else w.vnum(indexer(s, dim))
+            emit(f'putrow {sid} {dim} {ph} {mat([xs])} {V}', f'w {vt}')
+            w.last_set = None
+            mark_change(sid, 'assign')
+            # oracle: what was written reads back, and mol = value / factor at the RECEIVER's conditions
+            back = dense_rows(indexer(s, dim).data)[k]
+            if not rows_close([back], [xs]):
+                fail(f'assign:{dim}:readback', f'stream {sid}: assigned {xs} through the {dim} view '
+                     f'({mode}, from stream {oid}) but the view reads back {back}')
+            if dim != 'mol':
+                fac = [float(m) for m in s.chemicals.MW] if dim == 'mass' else fresh_V(s)[k]
+                exp = [x / f for x, f in zip(xs, fac)]
+                got = mol_rows(s)[k]
+                if not rows_close([got], [exp]):
+                    fail(f'assign:{dim}:mol≠value/factor(receiver)',
+                         f'stream {sid} (phase(s) {phases_of(s)}, T={s.T}, P={s.P}): assigned {dim} flows {xs} '
+                         f'({mode}, from stream {oid} at phase(s) {phases_of(o)}, T={o.T}, P={o.P}); molar flows are {got}, '
+                         f'expected value/factor at the receiver\'s conditions = {exp}')
         elif op in ('getflow', 'setflow'):
             sid = S(t[1]); s = w.streams[sid]; u = t[2]
             ph, i, key = key_of(s, t[3], t[4])
@@ -663,6 +719,11 @@ def gen_read(rng, o):
     return f'gettotal {o} {rng.choice(FLOW_UNITS)}'
 
 
+def gen_assign(rng, o, n):
+    return (f'assign {o} {rng.choice(["mass", "vol", "vol", "mol"])} {rng.randrange(n)} '
+            f'{rng.choice(["view", "view", "copylike", "arr"])} {rng.randrange(3)} {rng.randrange(3)}')
+
+
 def gen_write(rng, o):
     r = rng.random()
     if r < 0.30: return [f'put {o} {rng.choice(["mol", "mass", "vol"])} {rng.randrange(3)} {rng.randrange(5)} {rng.choice(XS)}']
@@ -708,7 +769,10 @@ def gen_case(rng, length):
         o = focus if rng.random() < 0.6 else rng.randrange(n)
         r = rng.random()
         if r < 0.40: ops.append(gen_read(rng, o))
-        elif r < 0.58: ops.extend(gen_write(rng, o))
+        elif r < 0.52: ops.extend(gen_write(rng, o))
+        elif r < 0.58:
+            ops.append(gen_assign(rng, o, n))
+            if rng.random() < 0.6: ops.append(f'obs {o}')
         elif r < 0.92:
             # the staleness pattern: make sure views exist, change something, look again (at both ends of a link)
             if rng.random() < 0.5: ops.append(gen_read(rng, o))
@@ -756,6 +820,16 @@ def grid():
                             {'grid': 'units'}))
             out.append(Case(['newm 0 gl 320.0 101325.0 1,2,0,0.5|0,1,3,0', f'setflow 0 {u} 1 2 3', f'getflow 0 {u} 1 2',
                              f'getflow 0 {v} 1 2', f'settotal 0 {u} 7', f'gettotal 0 {v}', 'obs 0'], {'grid': 'units'}))
+    for dim in ('mass', 'vol', 'mol'):
+        for mode in ('view', 'copylike', 'arr'):
+            for other in ('new1 0 l 350.0 101325.0 20,10,0,1', 'new1 0 g 400.0 50000.0 5,5,1,0', 'new1 0 l 298.15 202650.0 3,0,2,0',
+                          'newm 0 gl 375.5 101325.0 1,2,0,0.5|0,1,3,0'):
+                for pre in (0, 1):
+                    out.append(Case(['new1 0 l 298.15 101325.0 1,1,0,0', other] + (['obs 0', 'obs 1'] if pre else []) +
+                                    [f'assign 0 {dim} 1 {mode} 0 1', 'obs 0', 'obs 1'], {'grid': 'assign'}))
+                    out.append(Case(['newm 0 gl 298.15 101325.0 1,1,0,0|0,2,0,1', other] + (['obs 0', 'obs 1'] if pre else []) +
+                                    [f'assign 0 {dim} 1 {mode} 1 0', 'obs 0', f'assign 0 {dim} 1 {mode} 0 1', 'obs 0', 'obs 1'],
+                                    {'grid': 'assign'}))
     for u in OTHER_UNITS:
         out.append(Case(['new1 0 l 298.15 101325.0 1,2,0,0.5', f'getflow 0 {u} 0 0', f'setflow 0 {u} 0 0 1.5',
                          f'gettotal 0 {u}', f'settotal 0 {u} 2', 'obs 0'], {'grid': 'dimension'}))
@@ -783,6 +857,9 @@ def corpus():
         # fixes_proposed/C11-3: _expand_phases keeps the cached views of the old rows
         Case(['newm 0 gl 298.15 101325.0 0,2,0,0|1,0,0,0', 'newm 0 Lgl 298.15 101325.0 0,0,0,3|0,0,0,0|1,0,0,0', 'obs 0',
               'copylike 0 1', 'obs 0'], {'witness': 'C11-3'}),
+        # view-to-view bulk writes between streams at different T / phase (seeded/C11-1)
+        Case(['new1 0 l 298.15 101325.0 1,1,0,0', 'new1 0 l 350.0 101325.0 20,10,0,0', 'obs 0', 'obs 1', 'assign 0 vol 1 view 0 0',
+              'obs 0', 'new1 0 g 400.0 101325.0 5,5,0,0', 'assign 0 vol 2 copylike 0 0', 'obs 0', 'assign 0 mass 1 view 0 0', 'obs 0']),
         # _expand_phases through mix_from and through copy_like from a single-phase stream
         Case(['newm 0 gl 298.15 101325.0 0,2,0,0|1,0,0,0', 'new1 0 s 298.15 101325.0 0,0,0,3', 'new1 0 l 298.15 101325.0 1,0,0,0',
               'obs 0', 'mix 0 1 2', 'obs 0', 'new1 0 L 320.0 101325.0 0,1,0,3', 'copylike 0 3', 'obs 0']),
